@@ -1,6 +1,7 @@
 import JwtModel.Encode
 import JwtProofs.Base64
 import JwtProofs.Decode
+import Props.C12
 /-!
 # C03 — Encode then Decode is lossless for every claim kind
 
